@@ -506,7 +506,8 @@ def scratch_check(rec, fname, cid):
     try:
         vm = list(object.__getattribute__(rp, "__dict__")["var_mapping"])
         got = [rp.get_var_index(*t) for t in vm]
-        if [None if g is None else int(g) for g in got] != list(range(len(vm))):
+        # (a grid given with a repeated point lists a tuple twice; the lookup then answers with its first position)
+        if [None if g is None else int(g) for g in got] != [vm.index(t) for t in vm]:
             rec.anomaly("scratch/lookup-disagrees-with-enumeration",
                         f"after {fname}: get_var_index over var_mapping = {got[:12]} instead of 0..{len(vm) - 1}")
     except Exception as e:  # noqa
